@@ -23,7 +23,7 @@ def run_family(res, fam, n, seed, builds=("default",), extra=(), glue="Col", glu
                 res.oracle_fail(case[:4000], "process aborted while decoding (rc=%s): %s" % (rc, log[-300:].replace("\n", " ")))
             else:
                 raise C.Infra("harness %s (%s) failed:\n%s" % (fam, build, log[-2000:]))
-        rows = C.read_transcript(out) if os.path.exists(out) else []
+        rows = C.read_transcript(out, partial_ok=(rc != 0)) if os.path.exists(out) else []
         model = C.run_eval(glue, [r[0] for r in rows])
         C.compare_rows(res, rows, model, "correspondence(%s,%s)" % (fam, build))
         res.account(rows)
